@@ -1,0 +1,28 @@
+//go:build verif
+
+package sam
+
+// Verification hooks for property C07 (add-only, built with -tags verif):
+// read access to the identity fields a Header and its items keep in private
+// state.
+
+// VerifRefOwner returns the Header r believes it belongs to.
+func VerifRefOwner(r *Reference) *Header { return r.owner }
+
+// VerifRGOwner returns the Header rg believes it belongs to.
+func VerifRGOwner(rg *ReadGroup) *Header { return rg.owner }
+
+// VerifProgOwner returns the Header p believes it belongs to.
+func VerifProgOwner(p *Program) *Header { return p.owner }
+
+// VerifSeen returns copies of the three name tables of the Header.
+func VerifSeen(bh *Header) (refs, rgs, progs map[string]int32) {
+	cp := func(m set) map[string]int32 {
+		r := make(map[string]int32, len(m))
+		for k, v := range m {
+			r[k] = v
+		}
+		return r
+	}
+	return cp(bh.seenRefs), cp(bh.seenGroups), cp(bh.seenProgs)
+}
